@@ -76,6 +76,18 @@ struct Case {
     timeout_ms: u64,
     reqs: Vec<Req>,
     multi_thread: bool,
+    /// second round: after every first-round request has been resolved (and a long quiet period),
+    /// the SAME (kind, client order id) is requested again, e.g. a cancel re-issued after its first
+    /// attempt timed out
+    #[serde(default)]
+    reissue: Vec<Reissue>,
+}
+
+#[derive(Debug, Clone, Serialize, Deserialize, PartialEq)]
+struct Reissue {
+    of: usize,
+    delay_ms: Option<u64>,
+    out: Out,
 }
 
 fn instruments() -> IndexedInstruments {
@@ -145,10 +157,18 @@ fn run(case: &Case) -> Result<Outcome, V> {
     let indexer = AccountEventIndexer::new(Arc::new(map));
     let t = Duration::from_millis(case.timeout_ms);
 
-    let script: HashMap<String, (Option<u64>, Out)> = case.reqs.iter().enumerate().map(|(n, r)| (format!("{}{n}", if r.open { "o" } else { "c" }), (r.delay_ms, r.out))).collect();
-    let client = ScriptClient::new(move |call: &ClientCall| match script.get(call.cid.0.as_str()) {
+    let cid_of = |n: usize| format!("{}{n}", if case.reqs[n].open { "o" } else { "c" });
+    let mut script: HashMap<String, std::collections::VecDeque<(Option<u64>, Out)>> = HashMap::new();
+    for (n, r) in case.reqs.iter().enumerate() {
+        script.entry(cid_of(n)).or_default().push_back((r.delay_ms, r.out));
+    }
+    for r in &case.reissue {
+        script.entry(cid_of(r.of)).or_default().push_back((r.delay_ms, r.out));
+    }
+    let script = std::sync::Mutex::new(script);
+    let client = ScriptClient::new(move |call: &ClientCall| match script.lock().unwrap().get_mut(call.cid.0.as_str()).and_then(|q| q.pop_front()) {
         Some((Some(d), out)) => Reply::After(
-            Duration::from_millis(*d),
+            Duration::from_millis(d),
             match out {
                 Out::Ok => ReplyKind::Ok,
                 Out::Filled => ReplyKind::OkFullyFilled,
@@ -165,8 +185,9 @@ fn run(case: &Case) -> Result<Outcome, V> {
         tokio::runtime::Builder::new_current_thread().enable_time().start_paused(true).build().expect("runtime")
     };
     let reqs = case.reqs.clone();
+    let reissue = case.reissue.clone();
     let multi = case.multi_thread;
-    let (seen, calls, start): (Vec<Seen>, Vec<ClientCall>, tokio::time::Instant) = rt.block_on(async {
+    let (seen, calls, start, r2_start_ms): (Vec<Seen>, Vec<ClientCall>, tokio::time::Instant, u128) = rt.block_on(async {
         let (req_tx, req_rx) = mpsc_unbounded::<ExecutionRequest>();
         let (resp_tx, mut resp_rx) = mpsc_unbounded::<AccountStreamEvent>();
         let manager = ExecutionManager::new(req_rx.into_stream(), t, resp_tx, Arc::new(client.clone()), indexer);
@@ -199,24 +220,37 @@ fn run(case: &Case) -> Result<Outcome, V> {
         // the property is about a RUNNING manager: wait until every request must have been answered
         // (timeout + slack), then much longer to catch late duplicates, and only then shut down
         let max_delay = reqs.iter().filter_map(|r| r.delay_ms).max().unwrap_or(0);
-        tokio::time::sleep(t + Duration::from_millis(max_delay) + t * 10 + Duration::from_millis(if multi { 300 } else { 1000 })).await;
+        let quiet = t + Duration::from_millis(max_delay) + t * 10 + Duration::from_millis(if multi { 300 } else { 1000 });
+        tokio::time::sleep(quiet).await;
+        // second round: the same (kind, client order id) again
+        let r2_start_ms = start.elapsed().as_millis();
+        if !reissue.is_empty() {
+            for r2 in &reissue {
+                let r = &reqs[r2.of];
+                let key = OrderKey { exchange: ex_idx, instrument: own[r.instr], strategy: StrategyId::new("s"), cid: ClientOrderId::new(format!("{}{}", if r.open { "o" } else { "c" }, r2.of)) };
+                let req = if r.open {
+                    ExecutionRequest::Open(OrderRequestOpen { key, state: RequestOpen { side: Side::Buy, price: Decimal::from(10), quantity: Decimal::from(3), kind: OrderKind::Limit, time_in_force: TimeInForce::ImmediateOrCancel } })
+                } else {
+                    ExecutionRequest::Cancel(OrderRequestCancel { key, state: RequestCancel { id: None } })
+                };
+                let _ = req_tx.tx.send(req);
+                tokio::time::sleep(Duration::from_millis(1)).await;
+            }
+            let max_delay2 = reissue.iter().filter_map(|r| r.delay_ms).max().unwrap_or(0);
+            tokio::time::sleep(t + Duration::from_millis(max_delay2) + t * 10 + Duration::from_millis(if multi { 300 } else { 1000 })).await;
+        }
         let _ = req_tx.tx.send(ExecutionRequest::Shutdown);
         let _ = tokio::time::timeout(Duration::from_secs(30), handle).await;
         drop(req_tx);
         let seen = tokio::time::timeout(Duration::from_secs(30), collector).await.ok().and_then(|r| r.ok()).unwrap_or_default();
-        (seen, client.take_calls(), start)
+        (seen, client.take_calls(), start, r2_start_ms)
     });
     drop(rt);
 
     // ---- oracle
     let mut out = Outcome { events: seen.len() as u64, checks: 0, cells: vec![if case.multi_thread { "runtime:multi_thread_real_time" } else { "runtime:paused_clock" }], by_client: 0, by_timeout: 0 };
-    let accept_at: HashMap<String, ClientCall> = calls.iter().map(|c| (c.cid.0.to_string(), c.clone())).collect();
-    if calls.len() != case.reqs.len() {
-        return Err(("manager_did_not_forward_every_request_to_the_client", format!("{} requests, {} client calls", case.reqs.len(), calls.len())));
-    }
-    let mut per: BTreeMap<(bool, String), Vec<&Seen>> = BTreeMap::new();
-    for s in &seen {
-        per.entry((s.open, s.cid.clone())).or_default().push(s);
+    if calls.len() != case.reqs.len() + case.reissue.len() {
+        return Err(("manager_did_not_forward_every_request_to_the_client", format!("{} requests (+{} re-issued), {} client calls", case.reqs.len(), case.reissue.len(), calls.len())));
     }
     let known: std::collections::HashSet<String> = (0..case.reqs.len()).map(|n| format!("{}{n}", if case.reqs[n].open { "o" } else { "c" })).collect();
     for s in &seen {
@@ -225,9 +259,42 @@ fn run(case: &Case) -> Result<Outcome, V> {
             return Err(("response_for_a_request_that_was_never_made", format!("{s:?}")));
         }
     }
-    let mut outstanding_max = 0usize;
-    for (n, r) in case.reqs.iter().enumerate() {
-        let cid = format!("{}{n}", if r.open { "o" } else { "c" });
+    // rounds: (requests with their ids, events of that round, acceptance instants of that round)
+    let mut first_call: HashMap<String, u128> = HashMap::new();
+    let mut second_call: HashMap<String, u128> = HashMap::new();
+    for c in &calls {
+        let at = c.at.duration_since(start).as_millis();
+        let cid = c.cid.0.to_string();
+        if first_call.contains_key(&cid) {
+            second_call.entry(cid).or_insert(at);
+        } else {
+            first_call.insert(cid, at);
+        }
+    }
+    let round1: Vec<(String, Req)> = case.reqs.iter().enumerate().map(|(n, r)| (format!("{}{n}", if r.open { "o" } else { "c" }), r.clone())).collect();
+    let round2: Vec<(String, Req)> = case
+        .reissue
+        .iter()
+        .map(|r2| {
+            let r = &case.reqs[r2.of];
+            (format!("{}{}", if r.open { "o" } else { "c" }, r2.of), Req { open: r.open, instr: r.instr, send_ms: 0, delay_ms: r2.delay_ms, out: r2.out })
+        })
+        .collect();
+    if !round2.is_empty() {
+        out.cells.push("same_order_id_requested_again_after_resolution");
+    }
+    let rounds: Vec<(&str, Vec<(String, Req)>, Vec<&Seen>, &HashMap<String, u128>)> = vec![
+        ("", round1, seen.iter().filter(|s| case.reissue.is_empty() || s.at_ms < r2_start_ms).collect(), &first_call),
+        ("re-issued ", round2, seen.iter().filter(|s| !case.reissue.is_empty() && s.at_ms >= r2_start_ms).collect(), &second_call),
+    ];
+    for (round, items, seen_r, accept_at) in rounds {
+    let mut per: BTreeMap<(bool, String), Vec<&Seen>> = BTreeMap::new();
+    for s in seen_r {
+        per.entry((s.open, s.cid.clone())).or_default().push(s);
+    }
+    for (n, (cid, r)) in items.iter().enumerate() {
+        let cid = cid.clone();
+        let n = format!("{round}{n}");
         let got = per.get(&(r.open, cid.clone())).cloned().unwrap_or_default();
         let wrong_kind = per.get(&(!r.open, cid.clone())).map(|v| v.len()).unwrap_or(0);
         out.checks += 4;
@@ -267,7 +334,7 @@ fn run(case: &Case) -> Result<Outcome, V> {
                 _ => Some(("timeout", case.timeout_ms)),
             };
             // virtual instant at which the manager handed the request to the client (= accepted it)
-            let accepted = accept_at.get(&cid).map(|c| c.at.duration_since(start).as_millis()).unwrap_or(0);
+            let accepted = accept_at.get(&cid).copied().unwrap_or(0);
             match expect {
                 Some((class, after)) => {
                     out.checks += 2;
@@ -303,7 +370,9 @@ fn run(case: &Case) -> Result<Outcome, V> {
             out.cells.push("cancel_request");
         }
     }
+    }
     // outstanding requests / completion order (coverage only)
+    let mut outstanding_max = 0usize;
     let mut points: Vec<(u64, i32)> = vec![];
     for r in &case.reqs {
         let end = r.send_ms + r.delay_ms.unwrap_or(u64::MAX / 4).min(case.timeout_ms);
@@ -361,7 +430,24 @@ fn gen_case(rng: &mut Rng, multi_thread: bool, small: bool) -> Case {
         let send_ms = if burst { rng.range(0, 3) as u64 } else { rng.range(0, timeout_ms as i64 * 3) as u64 };
         reqs.push(Req { open: rng.chance(3, 5), instr: rng.usize_below(3), send_ms, delay_ms, out });
     }
-    Case { timeout_ms, reqs, multi_thread }
+    // re-issue some requests (same kind and client order id) after the first round is resolved;
+    // favour those whose first attempt timed out
+    let mut reissue = vec![];
+    if !multi_thread && rng.chance(1, 2) {
+        for (n, r) in reqs.iter().enumerate() {
+            let timed_out = r.delay_ms.map(|d| d > timeout_ms).unwrap_or(true);
+            if reissue.len() < 12 && r.out != Out::Alien && rng.chance(if timed_out { 1 } else { 0 } + 1, 6) {
+                let delay_ms = match rng.below(4) {
+                    0 => Some(0),
+                    1 => Some(timeout_ms / 2),
+                    2 => Some(timeout_ms + 1),
+                    _ => None,
+                };
+                reissue.push(Reissue { of: n, delay_ms, out: *rng.pick(&[Out::Ok, Out::Err, Out::Filled]) });
+            }
+        }
+    }
+    Case { timeout_ms, reqs, multi_thread, reissue }
 }
 
 fn execute(case: &Case, report: &mut Report) {
@@ -381,7 +467,7 @@ fn execute(case: &Case, report: &mut Report) {
         }
         Err((sig, detail)) => {
             report.case(h, true);
-            let small = if case.multi_thread {
+            let small = if case.multi_thread || !case.reissue.is_empty() {
                 case.reqs.clone()
             } else {
                 shrink(&case.reqs, |cand| {
@@ -451,6 +537,7 @@ fn main() {
             "50_or_more_outstanding",
             "completion_order_differs_from_submission_order",
             "client_names_unknown_instrument(filtered)",
+            "same_order_id_requested_again_after_resolution",
         ] {
             report.require(c);
         }
